@@ -201,27 +201,31 @@ def check(ctx):
         if n == 0:
             ctx.ok(rule, f"{res['transitions']} transitions of the extracted HttpStream model")
 
-    # R03.2a: need_error_hook predicate table, all (client_state, server_state) pairs
-    from ..httpstream import STATE_NAMES
-    from ..paths import Engine, State, C
+    def predicate_table():
+        # R03.2a: need_error_hook predicate table, all (client_state, server_state) pairs
+        from ..httpstream import STATE_NAMES
+        from ..paths import Engine, State, C
 
-    hpe = ctx.func(REL, "HttpStream.handle_protocol_error")
-    assign = [s for s in hpe.body if isinstance(s, ast.Assign) and attr_chain(s.targets[0]) == "need_error_hook"]
-    ctx.require(len(assign) == 1, "handle_protocol_error no longer computes need_error_hook in one assignment")
-    bad = 0
-    for cs in STATE_NAMES:
-        for ss in STATE_NAMES:
-            st = State((), {"self.client_state": R("self." + cs), "self.server_state": R("self." + ss)})
-            t = spec.truth(assign[0].value, st, 0)
-            ctx.cells += 1
-            ctx.require(t is not None, f"need_error_hook not decidable for ({cs},{ss}): {ast.unparse(assign[0].value)}")
-            must_be_false = cs == "state_errored" or ss in ("state_done", "state_errored")
-            if must_be_false and t:
-                bad += 1
-                ctx.fail("R03.2", (REL, "HttpStream.handle_protocol_error", assign[0]), f"need_error_hook({cs},{ss})=True",
-                         "an error hook would fire although the flow already has an outcome")
-    if not bad:
-        ctx.ok("R03.2", f"need_error_hook table {len(STATE_NAMES) ** 2} cells")
+        hpe = ctx.func(REL, "HttpStream.handle_protocol_error")
+        assign = [s for s in hpe.body if isinstance(s, ast.Assign) and attr_chain(s.targets[0]) == "need_error_hook"]
+        ctx.require(len(assign) == 1, "handle_protocol_error no longer computes need_error_hook in one assignment")
+        bad = 0
+        for cs in STATE_NAMES:
+            for ss in STATE_NAMES:
+                st = State((), {"self.client_state": R("self." + cs), "self.server_state": R("self." + ss)})
+                t = spec.truth(assign[0].value, st, 0)
+                ctx.cells += 1
+                ctx.require(t is not None, f"need_error_hook not decidable for ({cs},{ss}): {ast.unparse(assign[0].value)}")
+                must_be_false = cs == "state_errored" or ss in ("state_done", "state_errored")
+                if must_be_false and t:
+                    bad += 1
+                    ctx.fail("R03.2", (REL, "HttpStream.handle_protocol_error", assign[0]), f"need_error_hook({cs},{ss})=True",
+                             "an error hook would fire although the flow already has an outcome")
+        if not bad:
+            ctx.ok("R03.2", f"need_error_hook table {len(STATE_NAMES) ** 2} cells")
+
+
+    ctx.guard(predicate_table)
 
     # R03.5: close handling yields protocol errors
     def yields_receive(fn, kinds):
